@@ -1,8 +1,47 @@
 (* C19 - the example CAN tunnel is transparent. *)
 From Coq Require Import List NArith String Bool.
-From O1722 Require Import Bits Host FieldModel Spec ExCan C13Proofs.
+From O1722 Require Import Bits Host FieldModel Spec SpecProofs Paths ExCan C13Proofs C19Proofs.
 Import ListNotations.
 Local Open Scope N_scope.
+
+(* Frames as read() delivers them: can_id (identifier and EFF/RTR/ERR bits), len, flags (FD), the 8 / 64 data bytes.
+   frame_ok: len <= 8 (classic) or <= 64 (FD), the data array has its size, bytes are bytes.
+   sff_ok: a frame without EFF has an 11-bit identifier.
+   The packet is built in pdu[1500] of the talker (ANY previous content), received into pdu[1500] of the listener
+   (ANY stale content); any sequence numbers, any timestamps; both host byte orders. *)
+
+(* Talker then listener, for UDP/raw x TSCF/NTSCF x classic/FD and ANY number of frames that fit the 1500-byte packet:
+   the talker sends exactly header + messages bytes, its control header announces exactly the bytes of the ACF
+   messages that follow, and the listener handles the packet and writes one frame per frame sent - frames_out: each
+   with identifier/flags id_out, length, FD flags flags_out and the payload copied over the data of the previous frame. *)
+Theorem C19_tunnel : forall E (udp tscf fd:bool) seq udpseq frs pdu stale,
+  SpecProofs.normal pdu -> blen pdu = 1500 -> List.length stale = 1500%nat ->
+  Forall (frame_ok fd) (map fst frs) -> Forall sff_ok (map fst frs) ->
+  (if udp then 4 else 0) + cf_hl tscf + total_len (map fst frs) <= 1500 ->
+  exists sent pdu', talker_packet (ldqE E) (stqE E) udp tscf fd seq udpseq frs pdu = Ok (sent, pdu') /\
+    N.of_nat (List.length sent) = (if udp then 4 else 0) + cf_hl tscf + total_len (map fst frs) /\
+    (forall rest, ref_get (cfS tscf) (cf_len_name tscf) (sub (sent ++ rest) (if udp then 4 else 0)) = total_len (map fst frs)) /\
+    can_listener (ldqE E) (stqE E) E udp fd sent stale = (XHandled, frames_out E fd frame0 (map fst frs)).
+Proof. exact tunnel. Qed.
+
+(* ... and each frame written carries the identifier, the EFF and RTR bits, the length, the BRS and ESI bits and the
+   data of the frame that was sent (bit 29, the error-frame marker, is not tunnelled; in FD mode FDF is set: the
+   talker marks every message of an FD tunnel as FD): *)
+Theorem C19_identifier_and_flags : forall fr n, N.testbit (id_out fr) n =
+  if n <? 29 then N.testbit (cf_canid fr) n else if n =? 31 then N.testbit (cf_canid fr) 31 else if n =? 30 then N.testbit (cf_canid fr) 30 else false.
+Proof. exact id_out_bits. Qed.
+Theorem C19_fd_flags : forall fr n, N.testbit (flags_out fr) n =
+  if n =? 0 then N.testbit (cf_fflags fr) 0 else if n =? 1 then N.testbit (cf_fflags fr) 1 else (n =? 2).
+Proof. exact flags_out_bits. Qed.
+Theorem C19_length_and_data : forall fd fs fr, frame_ok fd fr -> List.length (fs_data fs) = 64%nat -> SpecProofs.normal (fs_data fs) ->
+  fs_id (next_frame fd fs fr) = id_out fr /\ fs_len (next_frame fd fs fr) = cf_flen fr /\
+  fs_flags (next_frame fd fs fr) = (if fd then flags_out fr else fs_flags fs) /\
+  firstn (N.to_nat (cf_flen fr)) (fs_data (next_frame fd fs fr)) = firstn (N.to_nat (cf_flen fr)) (cf_fdata fr) /\
+  List.length (fs_data (next_frame fd fs fr)) = 64%nat.
+Proof. intros fd fs fr H1 H2 H3. repeat split; try reflexivity; apply (next_frame_data fd fs fr H1 H2 H3). Qed.
+(* the length of one message: header, payload, padding to the quadlet *)
+Theorem C19_message_length : forall fr, msg_len fr = 16 + cf_flen fr + (4 - cf_flen fr mod 4) mod 4.
+Proof. reflexivity. Qed.
 
 (* non-vacuity / regression: two classic frames, one extended with a small identifier and RTR, through talker and listener *)
 Example C19_example :
@@ -13,3 +52,14 @@ Example C19_example :
   | _ => False
   end.
 Proof. vm_compute. reflexivity. Qed.
+Example C19_example_hypotheses :
+  Forall (frame_ok false) [mkcf 0x123 3 0 [0x61;0x62;0x63;0;0;0;0;0]; mkcf 0xC0000012 0 0 [0;0;0;0;0;0;0;0]] /\
+  Forall sff_ok [mkcf 0x123 3 0 [0x61;0x62;0x63;0;0;0;0;0]; mkcf 0xC0000012 0 0 [0;0;0;0;0;0;0;0]].
+Proof.
+  split; repeat constructor; cbn; try discriminate; try (intros H; vm_compute in H; discriminate); vm_compute; discriminate.
+Qed.
+
+Print Assumptions C19_tunnel.
+Print Assumptions C19_identifier_and_flags.
+Print Assumptions C19_fd_flags.
+Print Assumptions C19_length_and_data.
